@@ -79,6 +79,23 @@ Proof.
   - destruct (x ?= y); try reflexivity. apply IH.
 Qed.
 
+(* a key between two bounds that share their first n bytes carries the same n bytes: a range read whose
+   bounds lie inside one fixed-length prefix (one table) only ever meets keys of that prefix *)
+Lemma between_shares_prefix n : forall a b k,
+  firstn n a = firstn n b -> (n <= length a)%nat -> (n <= length b)%nat ->
+  bytes_leb a k = true -> bytes_leb k b = true -> firstn n k = firstn n a.
+Proof.
+  unfold bytes_leb. induction n as [|n IH]; intros a b k Hab Ha Hb Hak Hkb; auto.
+  destruct a as [|x a]; [simpl in Ha; lia|]. destruct b as [|y b]; [simpl in Hb; lia|].
+  simpl in Hab. injection Hab as -> Hab.
+  destruct k as [|z k]; [simpl in Hak; discriminate|].
+  simpl in Hak, Hkb. destruct (y ?= z) eqn:E1.
+  - apply N.compare_eq in E1. subst z. rewrite N.compare_refl in Hkb. simpl. f_equal.
+    apply (IH a b k); auto; simpl in *; lia.
+  - rewrite N.compare_antisym, E1 in Hkb. simpl in Hkb. discriminate.
+  - discriminate.
+Qed.
+
 (* ---------- generic list lemmas ---------- *)
 Section Lists.
   Context {A : Type}.
